@@ -19,7 +19,7 @@ Record cls := {
 
 (* pack_dataclass: the builder created for a nested class that has no to_dict yet receives
    default_dialect = <default dialect of the compiling builder> -- NOT its Config.dialect, NOT its
-   call dialect (kernel K9).  Arguments: the compiling builder's default dialect, dialect, Config.dialect *)
+   call dialect (kernel K14).  Arguments: the compiling builder's default dialect, dialect, Config.dialect *)
 Definition pass_dd (builder_dd builder_dialect cfg_dialect: option ns) : option ns := builder_dd.
 
 (* keyword arguments received by a to_dict call *)
